@@ -59,9 +59,21 @@ Seeds == <<
         \o "2020-03-14 (8h!)\n    22:00 - ?\n\n2020-03-15 \t\n    8:00 - ? work #w\n    -15m break\n\n2020-03-16\n    1h\n\n2020-03-17\n    2h\n",
     (* a point-in-time range before the open range; a closed range in another notation before the open range *)
     "2020-03-14\n    7:00 - 7:00\n    7:30 - 8:00\n\n2020-03-15\n    7:00 - 7:00\n    8:00 - ?\n",
-    "2020-03-15\n    8:00 - 9:00\n    10:00am-??? x\n"
+    "2020-03-15\n    8:00 - 9:00\n    10:00am-??? x\n",
+    (* newest record first, the record of today in the middle *)
+    "2020-03-16\n    1h\n\n2020-03-15\n    2h first\n\n2020-03-14\n    22:00 - ? late\n\n2020-03-13\n    1h\n",
+    (* the only open range of the file (with a long placeholder) is in another record than the target, which has a closed range *)
+    "2020-03-14\n    18:00 - ???\n\n2020-03-15\n    8:00 - 9:00\n",
+    (* two-space record whose last line is a continuation line (four spaces) *)
+    "2020-03-15\n  9:00-10:00 Review\n    chapter 2\n",
+    (* the open range is followed by entries with several lines *)
+    "2020-03-15\n    8:00 - ? open\n    -20m Break?\n        second line ?\n        third\n    1h x\n        y\n",
+    (* a record with many ranges *)
+    "2020-03-15\n    0:00 - 0:10 r0\n    0:30 - 0:40 r1\n    1:00 - 1:10 r2\n    1:30 - 1:40 r3\n    2:00 - 2:10 r4\n    2:30 - 2:40 r5\n    3:00 - 3:10 r6\n    3:30 - 3:40 r7\n    4:00 - 4:10 r8\n    4:30 - 4:40 r9\n    5:00 - 5:10 r10\n    5:30 - 5:40 r11\n    6:00 - 6:10 r12\n    6:30 - 6:40 r13\n    7:00 - 7:10 r14\n    7:30 - 7:40 r15\n    8:00 - 8:10 r16\n    8:30 - 8:40 r17\n    9:00 - 9:10 r18\n    9:30 - 9:40 r19\n    10:00 - 10:10 r20\n    10:30 - 10:40 r21\n    11:00 - 11:10 r22\n    11:30 - 11:40 r23\n    12:00 - 12:10 r24\n    12:30 - 12:40 r25\n    13:00 - 13:10 r26\n    13:30 - 13:40 r27\n    14:00 - 14:10 r28\n    14:30 - 14:40 r29\n    15:00 - 15:10 r30\n    15:30 - 15:40 r31\n    16:00 - 16:10 r32\n    16:30 - 16:40 r33\n    17:00 - 17:10 r34\n    17:30 - 17:40 r35\n    19:00 - ?\n"
 >>
 NSeeds == Len(Seeds)
+(* the long seed files get the smaller command pool (every kind of command, not every parameter) *)
+LongSeeds == {32, 39}
 
 C(op) == [NoCmd EXCEPT !.op = op]
 Dsels == {[dsel |-> "none", date |-> ""], [dsel |-> "yesterday", date |-> ""], [dsel |-> "tomorrow", date |-> ""],
@@ -109,6 +121,9 @@ PauseCmds ==
               ed \in {<<"2099-01-01\n\t5m ext\n">>, <<"", "2099-01-01\n    1h\n    2h\n", "2099-01-02">>,
                       <<"2099-01-01\r\n  8:00 - ? #ext\r\n", "2099-01-02 (8h!)\n">>}}
 
+LongCmds == {[C("track") EXCEPT !.entry = <<"18:30 - 18:40 r37">>], [C("stop") EXCEPT !.summary = <<"done #d", "more">>],
+             [C("pause") EXCEPT !.extend = TRUE, !.ticks = <<60, 300>>], [C("pause") EXCEPT !.ticks = <<60, 125>>, !.edits = <<"2099-01-01\n\t5m ext\n">>],
+             WithD(C("create"), [dsel |-> "date", date |-> "2020-03-10"]), [C("switch") EXCEPT !.summary = <<"a", "b c">>]}
 AllCmds == TrackCmds \cup StartCmds \cup StopCmds \cup SwitchCmds \cup CreateCmds \cup PauseCmds
 (* a smaller pool for histories *)
 HistCmds == {[C("track") EXCEPT !.entry = <<"1h">>], [C("track") EXCEPT !.entry = <<"15:00 - ?">>],
@@ -224,7 +239,7 @@ Pool(k) == IF Mode = "single" THEN AllCmds ELSE IF Mode = "clock" THEN ClockCmds
            ELSE HistCmds
 SeedSet == IF Mode = "single" THEN 1..NSeeds
            ELSE IF Mode = "clock" THEN {10 * lay + d : lay \in 0..5, d \in 0..6}
-           ELSE IF Mode = "pairs" THEN {3, 4, 5, 7, 10, 12, 17, 22, 24, 32, 33, 34}
+           ELSE IF Mode = "pairs" THEN {3, 4, 5, 7, 10, 12, 17, 22, 24, 32, 33, 34, 35, 37, 38}
            ELSE IF Mode = "long" THEN {1, 4, 7, 8, 11, 13, 22, 23, 32}
            ELSE {3 + (SeedN % 3), 22}
 
@@ -234,7 +249,7 @@ Init == /\ seed \in SeedSet
         /\ hist = <<>>
         /\ file = IF NoFile(seed) THEN "" ELSE SeedText(seed)
         /\ R = Data(SeedText(seed))
-        /\ ok = (ParseDoc(SeedText(seed)).status = "Conforming" /\ ~NoFile(seed))
+        /\ ok = (JudgedLikeConforming(ParseDoc(SeedText(seed)), SeedText(seed)) /\ ~NoFile(seed))
 NowAt(k) == [Now0 EXCEPT !.min = @ + 7 * k]       \* the clock advances between the commands of a history
 Now2350 == [Now0 EXCEPT !.min = 23 * 60 + 50, !.sec = 0]
 Now0002 == [Now0 EXCEPT !.min = 2, !.sec = 59]
@@ -251,7 +266,7 @@ ClockPick(minute, c, s) ==    \* quick tier: per minute one rounding (rotating) 
              /\ (s % 10) = (minute + SeedN) % 7)
 Variants(c, k) ==
     IF Mode = "clock"
-    THEN {<<[ord |-> DayOf(seed), min |-> m, sec |-> (m * 7) % 60], IF c.round = 0 /\ m % 2 = 0 THEN Cfg0 ELSE Cfg0>>
+    THEN {<<[ord |-> DayOf(seed), min |-> m, sec |-> (m * 7) % 60], IF m % 3 = 1 THEN Cfg12 ELSE Cfg0>>        \* every third minute with the 12-hour clock configured
             : m \in {mm \in 0..1439 : ClockPick(mm, c, seed)}}
     ELSE IF Mode # "single" THEN {<<NowAt(k), Cfg0>>}
     ELSE {<<Now0, Cfg0>>}
@@ -261,14 +276,16 @@ Variants(c, k) ==
          \cup (IF c.op \in {"track", "start", "create"} /\ c.summary = <<>> THEN {<<Now0, CfgS>>, <<Now0, CfgD>>, <<Now0, CfgSh>>} ELSE {})
 (* the file evolves by the text-level model KCliText; the abstract records are re-read from it *)
 Next == /\ Len(hist) < Depth
-        /\ \E c \in Pool(Len(hist)) : \E v \in Variants(c, Len(hist)) :
-              LET now == v[1]  cfg == v[2]
-                  x0 == IF ok THEN ExecText(c, file, now, cfg) ELSE [st |-> "unspec", text |-> file]
-                  x == IF x0.st = "ok" THEN [x0 EXCEPT !.text = ExtAppendAll(@, c, Len(c.ticks))] ELSE x0
-              IN  /\ hist' = Append(hist, Step(c, now, cfg, x, file))
-                  /\ file' = x.text
-                  /\ R' = IF ok THEN Data(x.text) ELSE R
-                  /\ ok' = (ok /\ x.st # "unspec")
+        /\ \E c \in (IF Mode = "single" /\ seed \in LongSeeds THEN HistCmds \cup LongCmds ELSE Pool(Len(hist))) : \E v \in Variants(c, Len(hist)) :
+              (* quick tier, single commands: a seed-rotated half of the (file, command) pairs; the small pool on every file *)
+              /\ ((Mode = "single" /\ ~Full) => ((CmdHash(c) + seed + SeedN) % 2 = 0 \/ c \in HistCmds \/ c.edits # <<>>))
+              /\ LET now == v[1]  cfg == v[2]
+                     x0 == IF ok THEN ExecText(c, file, now, cfg) ELSE [st |-> "unspec", text |-> file]
+                     x == IF x0.st = "ok" THEN [x0 EXCEPT !.text = ExtAppendAll(@, c, Len(c.ticks))] ELSE x0
+                 IN  /\ hist' = Append(hist, Step(c, now, cfg, x, file))
+                     /\ file' = x.text
+                     /\ R' = IF ok THEN Data(x.text) ELSE R
+                     /\ ok' = (ok /\ x.st # "unspec")
         /\ UNCHANGED seed
 
 Emit == Len(hist') = Depth =>
